@@ -132,6 +132,39 @@ func RuleM3(c *Ctx) {
 			continue
 		}
 		blk := cd.Block.Succs[e]
+		// dispatch through a function variable: the case selects msmCk as the value of a phi that is called afterwards
+		for _, succ := range blk.Succs {
+			for _, ins := range succ.Instrs {
+				phi, isPhi := ins.(*ssa.Phi)
+				if !isPhi {
+					break
+				}
+				for pi, pred := range succ.Preds {
+					if pred != blk {
+						continue
+					}
+					f, isFn := phi.Edges[pi].(*ssa.Function)
+					if !isFn || !strings.HasPrefix(f.Name(), "msmC") {
+						continue
+					}
+					// the phi is the value of one call that forwards the dispatcher's arguments
+					for _, r := range core.Refs(phi) {
+						call, isCall := r.(*ssa.Call)
+						if !isCall || call.Call.Value != ssa.Value(phi) {
+							continue
+						}
+						cases[k] = f
+						okArgs := len(call.Call.Args) == 4
+						for i, a := range call.Call.Args {
+							if i < 4 && okArgs && a != ssa.Value(disp.Params[[]int{0, 2, 3, 4}[i]]) {
+								okArgs = false
+							}
+						}
+						c.Check(okArgs, "M3", fmt.Sprintf("dispatch:case %d:args", k), call.Pos(), "the dispatcher does not forward (p, points, scalars, splitFirstChunk) unchanged", "arguments forwarded unchanged")
+					}
+				}
+			}
+		}
 		for _, ins := range blk.Instrs {
 			if call, ok := ins.(*ssa.Call); ok {
 				if f := core.Callee(call.Common()); f != nil && strings.HasPrefix(f.Name(), "msmC") {
@@ -326,11 +359,9 @@ func RuleM4(c *Ctx) {
 			if k, ok := core.ConstInt(v); ok {
 				return []int64{k}, true
 			}
-			if phi, ok := v.(*ssa.Phi); ok {
-				for _, cl := range cls {
-					if cl.phi == phi && cl.loop.Blocks[at] {
-						return cl.values()
-					}
+			for _, cl := range cls {
+				if cl.phi == v && cl.loop.Blocks[at] {
+					return cl.values()
 				}
 			}
 			return nil, false
@@ -423,7 +454,26 @@ func RuleM4(c *Ctx) {
 						}
 					})
 					if len(sends) == 1 && sends[0].last && recvs == 2 && chanRoot(sends[0].ch) == arr {
-						if ia := firstIndex(sends[0].send.Chan.(*ssa.UnOp).X); ia != nil {
+						// the channel sent on: chChunks[0] read in the literal, or handed to it as an argument
+						chv := core.StripConv(sends[0].send.Chan)
+						for d := 0; d < 3; d++ {
+							if ct, isCT := chv.(*ssa.ChangeType); isCT {
+								chv = ct.X
+								continue
+							}
+							if pp, isP := chv.(*ssa.Parameter); isP {
+								if b := core.LiteralParamBinding(pp); b != nil {
+									chv = b
+									continue
+								}
+							}
+							break
+						}
+						var chAddr ssa.Value
+						if u, isLoad := chv.(*ssa.UnOp); isLoad && u.Op == token.MUL {
+							chAddr = u.X
+						}
+						if ia := firstIndex(chAddr); chAddr != nil && ia != nil {
 							if k0, ok := core.ConstInt(ia.Index); ok && k0 == 0 {
 								mergerOK = true
 								add(cond, 0)
@@ -551,6 +601,13 @@ func nameOf(v ssa.Value) string {
 func resolveCell(v ssa.Value) ssa.Value {
 	v = core.StripConv(v)
 	for d := 0; d < 4; d++ {
+		// a parameter of a literal run at one site: the argument it is given there
+		if p, isP := v.(*ssa.Parameter); isP {
+			if b := core.LiteralParamBinding(p); b != nil {
+				v = core.StripConv(b)
+				continue
+			}
+		}
 		u, ok := v.(*ssa.UnOp)
 		if !ok || u.Op != token.MUL {
 			return v
@@ -597,48 +654,11 @@ func (c *Ctx) m4Reducer(fn *ssa.Function) {
 		if loopOf(cls, first.Block()) != nil {
 			first, loopRead = loopRead, first
 		}
-		// indices as k*i + b + n*N with N = len(chChunks)
-		type linN struct {
-			k, b, n int64
-			ok      bool
-		}
-		var ev func(v ssa.Value, sym ssa.Value, d int) linN
-		ev = func(v ssa.Value, sym ssa.Value, d int) linN {
-			v = core.StripConv(v)
-			if d > 12 {
-				return linN{}
-			}
-			if sym != nil && v == sym {
-				return linN{1, 0, 0, true}
-			}
-			if x, isLen := core.IsLenOf(v); isLen && x == ssa.Value(arr) {
-				return linN{0, 0, 1, true}
-			}
-			if _, isC := v.(*ssa.Const); isC {
-				if k, isK := core.ConstInt(v); isK {
-					return linN{0, k, 0, true}
-				}
-			}
-			if bo, isB := v.(*ssa.BinOp); isB {
-				x, y := ev(bo.X, sym, d+1), ev(bo.Y, sym, d+1)
-				if !x.ok || !y.ok {
-					return linN{}
-				}
-				switch bo.Op {
-				case token.ADD:
-					return linN{x.k + y.k, x.b + y.b, x.n + y.n, true}
-				case token.SUB:
-					return linN{x.k - y.k, x.b - y.b, x.n - y.n, true}
-				case token.MUL:
-					if x.k == 0 && x.n == 0 {
-						return linN{x.b * y.k, x.b * y.b, x.b * y.n, true}
-					}
-					if y.k == 0 && y.n == 0 {
-						return linN{y.b * x.k, y.b * x.b, y.b * x.n, true}
-					}
-				}
-			}
-			return linN{}
+		ev := func(v ssa.Value, sym ssa.Value, d int) linN {
+			return linNOf(v, sym, func(x ssa.Value) bool {
+				l, isLen := core.IsLenOf(x)
+				return isLen && l == ssa.Value(arr)
+			}, d)
 		}
 		if f := ev(first.Index, nil, 0); !f.ok || f.k != 0 || f.b != -1 || f.n != 1 || loopOf(cls, first.Block()) != nil {
 			ok = false
@@ -775,8 +795,32 @@ func RuleM2(c *Ctx) {
 		c.Unresolved("M2", "banderwagon.(*Element).MultiExp")
 	} else {
 		c.Saw(core.FnName(fn))
+		// a whole-struct conversion bandersnatch.MultiExpConfig(config) carries every field (identical underlying types)
+		wholeConv := false
+		for _, call := range callsTo(fn, "/bandersnatch", "", "MultiExp") {
+			for _, a := range call.Call.Args {
+				v := a
+				if al, isAl := v.(*ssa.Alloc); isAl {
+					if sts := storesInto(al); len(sts) == 1 {
+						v = sts[0].Val
+					}
+				}
+				if u, isLoad := v.(*ssa.UnOp); isLoad && u.Op == token.MUL {
+					if al, isAl := u.X.(*ssa.Alloc); isAl {
+						if sts := storesInto(al); len(sts) == 1 {
+							v = sts[0].Val
+						}
+					}
+				}
+				if ct, isCT := v.(*ssa.ChangeType); isCT && namedIs(ct.Type(), "bandersnatch", "MultiExpConfig") {
+					if p := core.PathOf(ct.X); p == "p:config" || p == "*(&p:config)" {
+						wholeConv = true
+					}
+				}
+			}
+		}
 		for _, field := range []string{"NbTasks", "ScalarsMont"} {
-			ok := false
+			ok := wholeConv
 			core.AllInstrs(fn, func(i ssa.Instruction) {
 				st, isSt := i.(*ssa.Store)
 				if !isSt {
@@ -1024,6 +1068,91 @@ func (c *Ctx) imageOfD(v ssa.Value, seen map[ssa.Value]bool) string {
 		if l, ok := core.IsLenOf(x.Len); ok {
 			return c.imageOfD(l, seen)
 		}
+	case *ssa.Phi:
+		// out = append(out, f(X[i])) once per iteration of a loop over the whole of X, starting empty: an image of X
+		if _, isSlice := x.Type().Underlying().(*types.Slice); !isSlice {
+			return ""
+		}
+		var cl *countedLoop
+		for _, l := range countedLoops(x.Parent()) {
+			if l.loop.Header == x.Block() {
+				cl = l
+			}
+		}
+		if cl == nil || cl.step != 1 || cl.op != token.LSS {
+			return ""
+		}
+		if z, isZ := core.ConstInt(cl.init); !isZ || z != 0 {
+			return ""
+		}
+		src, isLen := core.IsLenOf(cl.bound)
+		if !isLen {
+			return ""
+		}
+		for i, e := range x.Edges {
+			pred := x.Block().Preds[i]
+			if !cl.loop.Blocks[pred] {
+				// entry: an empty slice
+				empty := false
+				switch in := e.(type) {
+				case *ssa.MakeSlice:
+					if k, isK := core.ConstInt(in.Len); isK && k == 0 {
+						empty = true
+					}
+				case *ssa.Slice:
+					if in.High != nil {
+						if k, isK := core.ConstInt(in.High); isK && k == 0 {
+							empty = true
+						}
+					}
+				case *ssa.Const:
+					empty = in.IsNil()
+				}
+				if !empty {
+					return ""
+				}
+				continue
+			}
+			// back edge: append(phi, one element read from src[i]), on every iteration
+			app, isCall := e.(*ssa.Call)
+			if !isCall {
+				return ""
+			}
+			if bi, isB := app.Call.Value.(*ssa.Builtin); !isB || bi.Name() != "append" || app.Call.Args[0] != ssa.Value(x) {
+				return ""
+			}
+			if !app.Block().Dominates(pred) {
+				return ""
+			}
+			sl, isSl := app.Call.Args[1].(*ssa.Slice)
+			if !isSl || !isArrayOfLen(sl.X.Type(), 1) {
+				return ""
+			}
+			fromSrc := false
+			if arr, isAl := sl.X.(*ssa.Alloc); isAl {
+				reach := core.ReachFrom([]ssa.Value{src}, nil)
+				for _, r := range core.Refs(arr) {
+					if ia, ok := r.(*ssa.IndexAddr); ok {
+						for _, rr := range core.Refs(ia) {
+							if st, ok := rr.(*ssa.Store); ok && st.Addr == ssa.Value(ia) && reach[st.Val] {
+								// and the element is src[i] for the loop variable i
+								okIdx := false
+								core.AllInstrs(x.Parent(), func(in ssa.Instruction) {
+									if sia, ok := in.(*ssa.IndexAddr); ok && sia.X == src && core.StripConv(sia.Index) == cl.phi && reach[sia] {
+										okIdx = true
+									}
+								})
+								fromSrc = okIdx
+							}
+						}
+					}
+				}
+			}
+			if !fromSrc {
+				return ""
+			}
+		}
+		return c.imageOfD(src, seen)
 	}
 	return ""
 }
@@ -1333,7 +1462,19 @@ func RuleM8(c *Ctx) {
 					}
 				}
 			}
-			okLoop := isZ && z == 0 && cl.step == 1 && cl.op == token.LSS && (sameCell || core.SameExpr(core.StripConv(cl.bound), nb))
+			// ranging over the selector table itself visits exactly the windows it was sized for
+			overTable := false
+			if x, isLen := core.IsLenOf(cl.bound); isLen {
+				if root := chanRoot(x); root == selCell || core.PathOf(x) == core.PathOf(selCell) {
+					overTable = true
+				}
+				if u, ok := x.(*ssa.UnOp); ok {
+					if fv, ok := u.X.(*ssa.FreeVar); ok && core.FreeVarBinding(fv) == selCell {
+						overTable = true
+					}
+				}
+			}
+			okLoop := isZ && z == 0 && cl.step == 1 && cl.op == token.LSS && (sameCell || overTable || core.SameExpr(core.StripConv(cl.bound), nb))
 			c.Check(okLoop, "M8", "partitionScalars:digit-loop-covers-all-windows", cl.phi.Pos(), fmt.Sprintf("the per-scalar digit loop does not run chunk = 0 .. nbChunks-1 with the nbChunks that sizes the selector table (its bound is %s): a carry into a window that is not visited is lost", core.PathOf(cl.bound)), "for chunk := 0; chunk < nbChunks; chunk++ over selectors[chunk]")
 		}
 	}
@@ -1471,19 +1612,88 @@ func RuleM10(c *Ctx) {
 	ok := true
 	var why []string
 	var nbPoints, nbSplits ssa.Value
-	if site == nil || len(site.args) != 3 {
+	var cl *countedLoop
+	if site == nil || site.target == nil {
 		ok = false
-		why = append(why, "the goroutine per split (start, end, i) is not recognised")
+		why = append(why, "the goroutine per split is not recognised")
 	} else {
-		cl := loopOf(countedLoops(fn), site.at.Block())
-		// start = i*nbPoints, end = start+nbPoints, loop i = 0 .. nbSplits-2
-		st, isMul := core.StripConv(site.args[0]).(*ssa.BinOp)
-		en, isAdd := core.StripConv(site.args[1]).(*ssa.BinOp)
-		if cl == nil || !isMul || st.Op != token.MUL || st.X != ssa.Value(cl.phi) || !isAdd || en.Op != token.ADD || en.X != ssa.Value(st) || en.Y != st.Y || site.args[2] != ssa.Value(cl.phi) {
+		cl = loopOf(countedLoops(fn), site.at.Block())
+		// values of the spawned function expressed in the parent: its parameters stand for the go statement's arguments
+		tr := func(v ssa.Value) ssa.Value {
+			v = core.StripConv(v)
+			if p, isP := v.(*ssa.Parameter); isP && p.Parent() == site.target {
+				for i, q := range site.target.Params {
+					if q == p && i < len(site.args) {
+						return core.StripConv(site.args[i])
+					}
+				}
+			}
+			return v
+		}
+		inner := callsTo(site.target, "/bandersnatch", "", "msmInnerPointProj")
+		if cl == nil || len(inner) != 1 {
 			ok = false
-			why = append(why, "split i does not get [i*nbPoints, i*nbPoints+nbPoints)")
+			why = append(why, "the goroutine per split is not recognised")
 		} else {
-			nbPoints = st.Y
+			// both vectors sliced [i*nbPoints : i*nbPoints+nbPoints] of the caller's points / scalars
+			for k, a := range inner[0].Call.Args[2:4] {
+				sl, isSl := tr(a).(*ssa.Slice)
+				if !isSl || sl.Low == nil || sl.High == nil {
+					ok = false
+					why = append(why, "a split does not process a bounded range [start:end] of the input")
+					continue
+				}
+				wantBase, wantImg := "points", "P"
+				if k == 1 {
+					wantBase, wantImg = "scalars", "S"
+				}
+				if c.imageOf(sl.X) != wantImg {
+					ok = false
+					why = append(why, "a split does not slice the caller's "+wantBase)
+				}
+				lo, hi := tr(sl.Low), tr(sl.High)
+				lom, isMul := lo.(*ssa.BinOp)
+				var P ssa.Value
+				if isMul && lom.Op == token.MUL {
+					switch {
+					case core.StripConv(lom.X) == cl.phi:
+						P = lom.Y
+					case core.StripConv(lom.Y) == cl.phi:
+						P = lom.X
+					}
+				}
+				if P == nil {
+					ok = false
+					why = append(why, "split i does not start at i*nbPoints")
+					continue
+				}
+				okHi := false
+				if hb, isB := hi.(*ssa.BinOp); isB {
+					switch hb.Op {
+					case token.ADD:
+						okHi = (core.StripConv(hb.X) == lo && core.SameExpr(hb.Y, P)) || (core.StripConv(hb.Y) == lo && core.SameExpr(hb.X, P))
+					case token.MUL:
+						for _, pr := range [][2]ssa.Value{{hb.X, hb.Y}, {hb.Y, hb.X}} {
+							if add, isAdd := core.StripConv(pr[0]).(*ssa.BinOp); isAdd && add.Op == token.ADD && core.SameExpr(pr[1], P) {
+								one, isK := core.ConstInt(add.Y)
+								if isK && one == 1 && core.StripConv(add.X) == cl.phi {
+									okHi = true
+								}
+							}
+						}
+					}
+				}
+				if !okHi {
+					ok = false
+					why = append(why, "split i does not get [i*nbPoints, i*nbPoints+nbPoints)")
+				}
+				if nbPoints == nil {
+					nbPoints = P
+				} else if !core.SameExpr(nbPoints, P) {
+					ok = false
+					why = append(why, "points and scalars are split with different strides")
+				}
+			}
 			if b, isSub := core.StripConv(cl.bound).(*ssa.BinOp); isSub && b.Op == token.SUB {
 				if one, isK := core.ConstInt(b.Y); isK && one == 1 {
 					nbSplits = b.X
@@ -1493,18 +1703,6 @@ func RuleM10(c *Ctx) {
 			if nbSplits == nil || !isZ || z != 0 || cl.step != 1 || cl.op != token.LSS {
 				ok = false
 				why = append(why, "the spawn loop does not run i = 0 .. nbSplits-2")
-			}
-		}
-		// inside the goroutine: points[start:end], scalars[start:end] with its own parameters
-		if site.target != nil {
-			for _, call := range callsTo(site.target, "/bandersnatch", "", "msmInnerPointProj") {
-				for _, a := range call.Call.Args[2:4] {
-					sl, isSl := a.(*ssa.Slice)
-					if !isSl || sl.Low == nil || sl.High == nil || core.PathOf(sl.Low) != "p:start" || core.PathOf(sl.High) != "p:end" {
-						ok = false
-						why = append(why, "a split does not process exactly [start:end]")
-					}
-				}
 			}
 		}
 	}
@@ -1559,18 +1757,34 @@ func RulePW(c *Ctx) {
 	}
 	cl, m := cls[0], muls[0]
 	ok := true
-	one, isOne := core.ConstInt(cl.init)
-	if !isOne || one != 1 || cl.step != 1 || cl.op != token.LSS || core.PathOf(cl.bound) != "p:degree" {
-		ok = false
-	}
+	isDegree := func(v ssa.Value) bool { return core.PathOf(v) == "p:degree" }
 	dst, isD := m.Call.Args[0].(*ssa.IndexAddr)
 	a, isA := m.Call.Args[1].(*ssa.IndexAddr)
-	if !isD || !isA || dst.Index != ssa.Value(cl.phi) || dst.X != a.X || core.PathOf(m.Call.Args[2]) != "&p:x" {
+	other := m.Call.Args[2]
+	if !isA {
+		// x * result[i-1]
+		a, isA = m.Call.Args[2].(*ssa.IndexAddr)
+		other = m.Call.Args[1]
+	}
+	if !isD || !isA || dst.X != a.X || core.PathOf(other) != "&p:x" || cl.step != 1 {
 		ok = false
-	} else if sub, isSub := a.Index.(*ssa.BinOp); !isSub || sub.Op != token.SUB || sub.X != ssa.Value(cl.phi) {
-		ok = false
-	} else if k, isK := core.ConstInt(sub.Y); !isK || k != 1 {
-		ok = false
+	} else {
+		// as index sets: the destination runs over exactly 1 .. degree-1 and the source is the entry just before it
+		di, si := linNOf(dst.Index, cl.phi, isDegree, 0), linNOf(a.Index, cl.phi, isDegree, 0)
+		init, bound := linNOf(cl.init, nil, isDegree, 0), linNOf(cl.bound, nil, isDegree, 0)
+		last := bound
+		switch cl.op {
+		case token.LSS:
+			last.b--
+		case token.LEQ:
+		default:
+			last.ok = false
+		}
+		if !di.ok || !si.ok || !init.ok || !last.ok || di.k != 1 || si.k != 1 || di.n != 0 || si.n != 0 || di.b-si.b != 1 {
+			ok = false
+		} else if first, lst := (linN{0, init.b + di.b, init.n, true}), (linN{0, last.b + di.b, last.n, true}); !(first.b == 1 && first.n == 0 && lst.b == -1 && lst.n == 1) {
+			ok = false
+		}
 	}
 	// result[0] = fr.One(); result has length degree; returned
 	first := false
@@ -1596,4 +1810,49 @@ func RulePW(c *Ctx) {
 		}
 	}
 	c.Check(ok && first, "PW", "PowersOf:recurrence", fn.Pos(), "PowersOf is not result[0]=1, result[i]=result[i-1]*x for i=1..degree-1", "result[0] = 1; result[i] = result[i-1] * x")
+}
+
+// linN: k*i + b + n*N for a loop variable i and one symbolic size N.
+type linN struct {
+	k, b, n int64
+	ok      bool
+}
+
+// linNOf evaluates v as a linN: sym is the loop variable, isN recognises the symbolic size.
+func linNOf(v ssa.Value, sym ssa.Value, isN func(ssa.Value) bool, d int) linN {
+	v = core.StripConv(v)
+	if d > 12 {
+		return linN{}
+	}
+	if sym != nil && v == sym {
+		return linN{1, 0, 0, true}
+	}
+	if isN != nil && isN(v) {
+		return linN{0, 0, 1, true}
+	}
+	if _, isC := v.(*ssa.Const); isC {
+		if k, isK := core.ConstInt(v); isK {
+			return linN{0, k, 0, true}
+		}
+	}
+	if bo, isB := v.(*ssa.BinOp); isB {
+		x, y := linNOf(bo.X, sym, isN, d+1), linNOf(bo.Y, sym, isN, d+1)
+		if !x.ok || !y.ok {
+			return linN{}
+		}
+		switch bo.Op {
+		case token.ADD:
+			return linN{x.k + y.k, x.b + y.b, x.n + y.n, true}
+		case token.SUB:
+			return linN{x.k - y.k, x.b - y.b, x.n - y.n, true}
+		case token.MUL:
+			if x.k == 0 && x.n == 0 {
+				return linN{x.b * y.k, x.b * y.b, x.b * y.n, true}
+			}
+			if y.k == 0 && y.n == 0 {
+				return linN{y.b * x.k, y.b * x.b, y.b * x.n, true}
+			}
+		}
+	}
+	return linN{}
 }
